@@ -79,7 +79,7 @@ def run(rd, emit, log, enum_values, ti_default):
     body += 'Definition f_cw_ident_regex : option (list N) := %s.\n' % ('Some (%s)%%N' % blist(rx) if rx is not None else 'None')
     body += '(* true = boost::regex_match (whole string), false = boost::regex_search (any line) *)\n'
     body += 'Definition f_cw_ident_whole_match : option bool := %s.\n' % ({'regex_match': 'Some true', 'regex_search': 'Some false'}.get(fnm, 'None'))
-    body += 'Definition f_cw_keyword_test_first : bool := %s.\n' % ('true' if kwfirst else 'false')
+    body += 'Definition f_cw_keyword_test_first : option bool := %s.\n' % ('Some true' if kwfirst else 'None')
     # ---- escape table
     b = fn_body(cw, r'String\s+ConfigWriter::EscapeIcingaString\s*\(')
     tab = []
@@ -112,12 +112,12 @@ def run(rd, emit, log, enum_values, ti_default):
     b = fn_body(cw, r'void\s+ConfigWriter::EmitString\s*\(')
     q = bool(b and re.match(r'\s*fp\s*<<\s*"\\""\s*<<\s*EscapeIcingaString\(val\)\s*<<\s*"\\""\s*;\s*$', b))
     if not q: log.append('C17: EmitString not recognised')
-    body += 'Definition f_cw_emit_string_quotes_escaped : bool := %s.\n' % ('true' if q else 'false')
+    body += 'Definition f_cw_emit_string_quotes_escaped : option bool := %s.\n' % ('Some true' if q else 'None')
     b = fn_body(cw, r'void\s+ConfigWriter::EmitNumber\s*\(')
     nf = bool(b and re.match(r'\s*fp\s*<<\s*std::fixed\s*<<\s*val\s*;\s*$', b))
     if not nf: log.append('C17: EmitNumber not recognised')
     body += '(* true = `fp << std::fixed << val` (default precision 6) *)\n'
-    body += 'Definition f_cw_number_fixed6 : bool := %s.\n' % ('true' if nf else 'false')
+    body += 'Definition f_cw_number_fixed6 : option bool := %s.\n' % ('Some true' if nf else 'None')
     # ---- lexer keywords: lines `word   return T_...;` / `word { yylval->boolean = ...` inside <INITIAL>{ }
     lkws = []
     for m in re.finditer(r'^([a-z_]+)[ \t]+(?:return\s+T_[A-Z_]+\s*;|\{\s*yylval->boolean\s*=\s*[01]\s*;\s*return\s+T_BOOLEAN\s*;\s*\})\s*$', lx, re.M):
